@@ -23,6 +23,8 @@ CLAIMED = {
          "All entry->exit paths of the four methods (parser outcome split into six classes) are abstracted to (guards, ordered effects on self, exit class) and compared as a set with the reference protocol: type check, saturating size check with >= 10 MiB before any append, clear-before-fill, append-then-reparse-whole-buffer, type cleared only on success, nocopy refusal without effects, reset = derived Default; private state and who-may-touch-state are checked too.", "4 C07"),
  "C08": ("exhaustive decision-table extraction by abstract evaluation", "other",
          "All 1150 cells (25 states x 23 message kinds x 2 directions) are evaluated abstractly from the HIR with arbitrary payloads and compared with a reference relation; content independence is decided by the evaluator refusing any other inspection of the message.", "4 C08"),
+ "C09": ("generator-IR extraction from cookie-factory trees vs reference writers; tag agreement with the parser's dispatch tables; length pairing", "other",
+         "Writer/reader agreement as a structural fact: emitted layout of the 11 serializers equals reference writers, every emitted type constant is the one the parser dispatches on (tables extracted from the same build), every direct length field prefixes exactly what follows, unsupported variants end in NotYetImplemented.", "4 C09"),
  "C10": ("parser-grammar extraction vs RFC 6347 grammar", "other",
          "DTLS record header (16/48-bit split), cap, handshake header, fragment predicate, bodies and datagram repetition compared with the reference grammar.", "4 C10"),
  "C11": ("dataflow on extracted grammars: code-point binder unconstrained; open field types", "other",
